@@ -96,6 +96,8 @@ def extend_case(rng, case):
     case['precision'] = rng.choice([7, 7, 7, 4, 5, 6, 8, 9, 11])
     case['title'] = rng.choice(['Martinized!', '', 'a title with blanks ', 't.i.t.l.e', '42'])
     case['box'] = rand_box(rng)
+    # how the files are produced: write_pdb_string / write_pdb(path), directly or through the DeferredFileWriter
+    case['via'] = rng.choice(['string', 'string', 'file', 'deferred'])
     case['velmode'], case['posmode'], case['chmode'] = velmode, posmode, chmode
     case['kind'] = 'xsys'
     return case
@@ -182,9 +184,11 @@ def write_order(mol):
 
 def run_xsys(cid, case, tmp, h):
     """h: helpers of c16.py (gro_variant, STR_ATTRS, has_letter, want_str)"""
-    from vermouth.pdb.pdb import write_pdb_string, read_pdb
+    from vermouth.pdb.pdb import write_pdb_string, write_pdb, read_pdb
     from vermouth.gmx.gro import write_gro, read_gro
+    from vermouth.file_writer import DeferredFileWriter
     recs, cnt = [], {}
+    via = case.get('via', 'string')
 
     def count(k):
         cnt[k] = cnt.get(k, 0) + 1
@@ -195,11 +199,25 @@ def run_xsys(cid, case, tmp, h):
     wline = line('pdbwritex', case['conect'], case['omit_charges'], case['nan_missing_pos'], enc_systemx(case))
     text = None
     try:
-        text = write_pdb_string(build_systemx(case, 10000, h['STR_ATTRS']), conect=case['conect'],
-                                omit_charges=case['omit_charges'], nan_missing_pos=case['nan_missing_pos'])
+        if via == 'string':
+            text = write_pdb_string(build_systemx(case, 10000, h['STR_ATTRS']), conect=case['conect'],
+                                    omit_charges=case['omit_charges'], nan_missing_pos=case['nan_missing_pos'])
+        else:
+            wpath = os.path.join(tmp, 'w%d.pdb' % os.getpid())
+            if os.path.exists(wpath):
+                os.remove(wpath)
+            write_pdb(build_systemx(case, 10000, h['STR_ATTRS']), wpath, conect=case['conect'],
+                      omit_charges=case['omit_charges'], nan_missing_pos=case['nan_missing_pos'],
+                      defer_writing=(via == 'deferred'))
+            if via == 'deferred':
+                DeferredFileWriter().write()
+            text = open(wpath).read()
         impl_w = 'ok ' + enc(text.split('\n'))
     except Exception as exc:
         impl_w = exc_name(exc)
+        if via == 'deferred':
+            DeferredFileWriter().close()
+    count('x_written_via_' + via)
     count('x_pdbwrite_' + impl_w.split()[0] + ('' if text is not None else '_' + impl_w.split()[1]))
     errs = []
     missing = any(not a['haspos'] for m in case['mols'] for a in m['atoms'])
@@ -275,14 +293,20 @@ def run_xsys(cid, case, tmp, h):
     path = os.path.join(tmp, 'x%d.gro' % os.getpid())
     flines = None
     try:
+        if os.path.exists(path):
+            os.remove(path)
         write_gro(build_systemx(gcase, 1000, h['STR_ATTRS']), path, precision=prec, title=title,
-                  box=tuple(box_value(b) for b in box), defer_writing=False)
+                  box=tuple(box_value(b) for b in box), defer_writing=(via == 'deferred'))
+        if via == 'deferred':
+            DeferredFileWriter().write()
         flines = open(path).read().split('\n')
         if flines and flines[-1] == '':
             flines.pop()
         impl_w = 'ok ' + enc(flines)
     except Exception as exc:
         impl_w = exc_name(exc)
+        if via == 'deferred':
+            DeferredFileWriter().close()
     count('x_growrite_' + impl_w.split()[0] + ('' if flines is not None else '_' + impl_w.split()[1]))
     atoms = [a for m in gcase['mols'] for a in write_order(m)]
     firsts = [m['atoms'][0] if m['atoms'] else None for m in gcase['mols']]
